@@ -388,7 +388,9 @@ fn dns() -> impl Strategy<Value = String> {
             while s.len() < len {
                 r = mix(r);
                 let c = match r % 40 {
-                    0..=25 => (b'a' + (r % 26) as u8) as char,
+                    0..=19 => (b'a' + (r % 26) as u8) as char,
+                    // host names are case-insensitive on the network but are carried (and signed) as written
+                    20..=25 => (b'A' + (r % 26) as u8) as char,
                     26..=35 => (b'0' + (r % 10) as u8) as char,
                     36 => '-',
                     _ => '.',
